@@ -796,26 +796,116 @@ def accept_text(acc):
     return ', '.join(parts)
 
 
-def render_case(accept, xml_on, extra, fields, *, asgi=False, site='responder', not_found=False, own_vary=None):
-    """Raise one HTTPError (field values `fields`) from a responder of an app configured with
-    xml_error_serialization = xml_on and the extra media handlers `extra` (list of media types), send
-    the request with Accept header `accept` (text or None).  Returns (exception, result, handlers)."""
+RETRY_DATE = (2031, 5, 17, 8, 9, 10)        # the datetime passed as retry_after when the constructor gets a date
+NO_CTOR = {'kind': 'none', 'n': -1, 'date': False, 'items': [], 'loc': ''}
+_SHAPES = {}
+
+
+def shaped_class(shape):
+    """HTTPError subclasses using the documented customisation point to_dict()."""
+    import falcon
+    if not _SHAPES:
+        class Adds(falcon.HTTPError):
+            def to_dict(self, obj_type=dict):
+                d = super().to_dict(obj_type)
+                d['problems'] = ['p1', {'field': 'a', 'why': 'b'}]
+                return d
+
+        class Drops(falcon.HTTPError):
+            def to_dict(self, obj_type=dict):
+                d = super().to_dict(obj_type)
+                d.pop('description', None)
+                return d
+
+        class Renames(falcon.HTTPError):
+            def to_dict(self, obj_type=dict):
+                d = super().to_dict(obj_type)
+                d['summary'] = d.pop('title')
+                return d
+        _SHAPES.update(adds=Adds, drops=Drops, renames=Renames)
+    return _SHAPES[shape]
+
+
+def reshape(doc, shape):
+    """What the subclass of `shape` makes of a plain error document (the harness knows its own subclasses)."""
+    d = dict(doc)
+    if shape == 'adds':
+        d['problems'] = ['p1', {'field': 'a', 'why': 'b'}]
+    elif shape == 'drops':
+        d.pop('description', None)
+    elif shape == 'renames':
+        d['summary'] = d.pop('title')
+    return d
+
+
+def http_date_text():
+    """HTTP-date of RETRY_DATE by the standard library (trusted formatter)."""
+    import datetime
+    import email.utils
+    return email.utils.format_datetime(datetime.datetime(*RETRY_DATE, tzinfo=datetime.timezone.utc), usegmt=True)
+
+
+def ctor_exc(status, ctor, fields, own_vary=None):
+    """The falcon error / redirect class with status `status`, constructed from the abstract arguments `ctor`."""
+    import datetime
+    import falcon
+    kw = dict(title='E1|%s' % fields.title_tail, description=fields.description, headers=dict(own_headers('HTTPError', 1)),
+              href=fields.href, href_text=fields.href_text, code=fields.code)
+    if own_vary:
+        kw['headers']['Vary'] = own_vary
+    k = ctor['kind']
+    if k == 'retry':
+        cls = {413: falcon.HTTPContentTooLarge, 429: falcon.HTTPTooManyRequests, 503: falcon.HTTPServiceUnavailable}[status]
+        ra = datetime.datetime(*RETRY_DATE) if ctor['date'] else (ctor['n'] if ctor['n'] >= 0 else None)
+        return cls(retry_after=ra, **kw)
+    if k == 'allow':
+        return falcon.HTTPMethodNotAllowed(list(ctor['items']), **kw)
+    if k == 'range':
+        return falcon.HTTPRangeNotSatisfiable(ctor['n'], **kw)
+    if k == 'challenge':
+        ch = list(ctor['items']) if ctor['items'] or fields.code is None else None      # empty list or None: no challenge
+        return falcon.HTTPUnauthorized(challenges=ch, **kw)
+    if k == 'location':
+        cls = {301: falcon.HTTPMovedPermanently, 302: falcon.HTTPFound, 303: falcon.HTTPSeeOther,
+               307: falcon.HTTPTemporaryRedirect, 308: falcon.HTTPPermanentRedirect}[status]
+        return cls(ctor['loc'].replace('<e9>', '\u00e9'), kw['headers'])
+    raise ValueError(k)
+
+
+OWN_NAMES = ('retry-after', 'allow', 'content-range', 'www-authenticate', 'location')
+
+
+def render_case(accept, xml_on, extra, fields, *, asgi=False, site='responder', not_found=False, own_vary=None,
+                shape='plain', ctor=None, status=None):
+    """Raise one HTTP error (field values `fields`; `shape`: a to_dict-overriding subclass; `ctor`: a header-bearing
+    class of falcon.errors / falcon.redirects built from abstract constructor arguments) at `site` - 'responder',
+    'hook' (a before hook), 'mw' (process_request) or 'render' (while the responder's media is serialised) - of an
+    app configured with xml_error_serialization = xml_on and the extra media handlers `extra`; the request carries
+    the Accept header `accept` (text or None).  Returns (exception, result, handlers)."""
     import falcon
     import falcon.asgi
+    import falcon.media
     box = {}
 
     def mk():
-        ex = make_exc('HTTPNotFound' if not_found else 'HTTPError', 1, fields, own_vary=own_vary)
+        if ctor and ctor['kind'] != 'none':
+            ex = ctor_exc(status, ctor, fields, own_vary)
+        elif shape != 'plain':
+            h = dict(own_headers('HTTPError', 1))
+            if own_vary:
+                h['Vary'] = own_vary
+            ex = shaped_class(shape)(STATUS['HTTPError'], title='E1|%s' % fields.title_tail, description=fields.description,
+                                     headers=h, href=fields.href, href_text=fields.href_text, code=fields.code)
+        else:
+            ex = make_exc('HTTPNotFound' if not_found else 'HTTPError', 1, fields, own_vary=own_vary)
         box['ex'] = ex
         return ex
-
-    import falcon.media
 
     def act(resp):
         if site == 'render':            # the error is raised while the responder's media is serialised
             resp.content_type = falcon.MEDIA_JSON
             resp.media = {'m': 1}
-        else:
+        elif site == 'responder':
             raise mk()
 
     def dumps(obj):
@@ -824,14 +914,34 @@ def render_case(accept, xml_on, extra, fields, *, asgi=False, site='responder', 
         return json.dumps(obj, ensure_ascii=False)
 
     if asgi:
+        async def hook(req, resp, resource, params):
+            if site == 'hook':
+                raise mk()
+
         class Res:
+            @falcon.before(hook)
             async def on_get(self, req, resp):
                 act(resp)
+
+        class Mw:
+            async def process_request(self, req, resp):
+                if site == 'mw':
+                    raise mk()
     else:
+        def hook(req, resp, resource, params):
+            if site == 'hook':
+                raise mk()
+
         class Res:
+            @falcon.before(hook)
             def on_get(self, req, resp):
                 act(resp)
-    app = (falcon.asgi.App if asgi else falcon.App)()
+
+        class Mw:
+            def process_request(self, req, resp):
+                if site == 'mw':
+                    raise mk()
+    app = (falcon.asgi.App if asgi else falcon.App)(middleware=[Mw()])
     app.resp_options.xml_error_serialization = xml_on
     if site == 'render':
         app.resp_options.media_handlers[falcon.MEDIA_JSON] = falcon.media.JSONHandler(dumps=dumps)
@@ -843,6 +953,14 @@ def render_case(accept, xml_on, extra, fields, *, asgi=False, site='responder', 
     req = Req('GET', '/t', headers=[('Accept', accept)] if accept is not None else [])
     res = run_async(asgi_call_async(app, req)) if asgi else wsgi_call(app, req)
     return box.get('ex'), res, hs
+
+
+def own_observed(res):
+    """The constructor-derived headers on the response as [name, value] records; the HTTP-date of RETRY_DATE is
+    written "<http-date>" and U+00E9 "<e9>", as in ErrorRender.tla."""
+    date = http_date_text()
+    return [{'name': k, 'value': '<http-date>' if v == date else v.replace('\u00e9', '<e9>')}
+            for k, v in res.headers if k in OWN_NAMES]
 
 
 # ------------------------------------------------------------------------------------------------
